@@ -38,9 +38,11 @@ theorem decode_encode (name : List Nat) (expire : Nat) (he : expire < u32) (hn :
 theorem decode_short (data : List Nat) (h : data.length < 6) : decodeSess data = none := by
   simp [decodeSess, h]
 
-theorem stepFX_false (st : St) (now : Nat) (dbOK : Bool) (o : Op) : stepFX false st now dbOK o = stepF st now dbOK o := by
+theorem stepFX_false (st : St) (now : Nat) (dbOK : Bool) (o : Op) :
+    stepFX false true st now dbOK o = stepF st now dbOK o := by
   cases o with
   | login req good user => rfl
+  | basic req good => rfl
   | request tok =>
     simp only [stepFX, stepF, checkSessionFX, checkSessionF, expiredAt, Bool.false_eq_true, if_false,
       decide_eq_true_eq]
